@@ -299,6 +299,130 @@ def run_record_level(c):
         return ('exc', type(e).__name__)
 
 
+class _FeedSock(object):
+    """what RecordLayer needs of a socket: recv(n) from a byte buffer"""
+
+    def __init__(self, data):
+        self.buf = bytearray(data)
+
+    def recv(self, n):
+        out = bytes(self.buf[:n])
+        del self.buf[:n]
+        return out
+
+    def send(self, b):
+        return len(b)
+
+
+SEQ_EDGES = [0, 1, 2**8 - 1, 2**16 - 1, 2**24 - 1, 2**31 - 1, 2**32 - 2, 2**32 - 1, 2**32, 2**40 - 1,
+             2**48 - 1, 2**56 - 1, 2**63 - 1, 2**64 - 3]
+
+
+def record_sequence_case(rng):
+    """Three consecutive records of one CBC connection state, received through RecordLayer.recvRecord()
+    (socket -> header -> decrypt -> check -> strip), starting at a sequence number next to a carry
+    boundary.  Each record is an honest sender's output for ITS OWN sequence number; one of them may be
+    mutated.  `hdr` variants: the record header's version field differs from the negotiated version and
+    the body is crafted for the header's version (MAC pseudo-header, SSLv3/TLS padding rule)."""
+    ver = rng.choice(VERSIONS)
+    cname, klen, bs = rng.choice(CIPHERS)
+    alg, ds, mbs = rng.choice(ALGS[:2] if ver == (3, 0) else ALGS)
+    start = rng.choice(SEQ_EDGES + [rng.randrange(2**64 - 3)])
+    base = dict(mac=alg, ds=ds, mbs=mbs, key=bytes(rng.randrange(256) for _ in range(ds)), ver=ver, bs=bs,
+                cipher=cname, ckey=bytes(rng.randrange(256) for _ in range(klen)),
+                iv=bytes(rng.randrange(256) for _ in range(bs)), start=start)
+    kind = rng.choice(['honest', 'honest', 'mutated', 'stale-seq', 'hdr-version'])
+    recs = []
+    for i in range(3):
+        c = dict(base, seq=((start + i) % 2**64).to_bytes(8, 'big'), ty=rng.choice([21, 22, 23]))
+        L = rng.choice([0, 1, bs, rng.randrange(1, 60)]) if c['ty'] == 23 else rng.randrange(1, 40)
+        r = (-(L + ds + 1)) % bs
+        p = rng.choice([r, r, r + bs]) if ver != (3, 0) else r
+        mut, hdr, built_for = 'none', ver, c
+        if i == 1 and kind == 'mutated':
+            mut = rng.choice(['flip-data', 'flip-mac', 'flip-pad', 'last-mac-byte', 'first-pad-byte'])
+        if i == 2 and kind == 'stale-seq':
+            # MACed for a sequence number that differs from the right one in its HIGH bytes only
+            wrong = (start + i) % 2**64 ^ (1 << rng.choice([32, 33, 40, 48, 56, 63]))
+            built_for = dict(c, seq=wrong.to_bytes(8, 'big'))
+        if i == 1 and kind == 'hdr-version':
+            hdr = rng.choice([v for v in VERSIONS if v != ver])
+            built_for = dict(c, ver=hdr)
+            if hdr == (3, 0) and built_for['mac'] not in ('md5', 'sha1'):
+                built_for['mac'], hdr = c['mac'], ver          # no SSLv3 MAC for SHA-2: keep it honest
+                built_for = c
+        build_record(rng, built_for, L, p, mut if (L > 0 or mut != 'flip-data') else 'flip-mac')
+        data = bytearray(built_for['data'])
+        if len(data) % bs:
+            data = data[:len(data) - len(data) % bs] or bytearray(bs)
+        c['data'], c['hdr'], c['cls'] = bytes(data), hdr, built_for.get('cls', 'none')
+        recs.append(c)
+    return dict(base, kind=kind, recs=recs)
+
+
+def run_record_sequence(sc):
+    """[( 'ok', type, plaintext ) | ('exc', name)] up to and including the first failure"""
+    from tlslite.recordlayer import RecordLayer, ConnectionState
+    ver = tuple(sc['ver'])
+    snd = mk_cipher(sc['cipher'], sc['ckey'], sc['iv'])          # one sender cipher: CBC chaining for TLS <= 1.0
+    wire = bytearray()
+    for c in sc['recs']:
+        body = bytes(c['data'])
+        if ver >= (3, 2):
+            body = bytes(rng_iv(c)) + body
+        ct = snd.encrypt(bytearray(body))
+        wire += bytes([c['ty'], c['hdr'][0], c['hdr'][1], len(ct) >> 8, len(ct) & 255]) + bytes(ct)
+    rl = RecordLayer(_FeedSock(wire))
+    rl.version = ver
+    st = ConnectionState()
+    st.encContext = mk_cipher(sc['cipher'], sc['ckey'], sc['iv'])
+    st.macContext = mk_mac(sc)
+    st.seqnum = sc['start']
+    rl._readState = st
+    out = []
+    for c in sc['recs']:
+        try:
+            r = None
+            for r in rl.recvRecord():
+                if r in (0, 1):
+                    raise RuntimeError('would block')
+                break
+            out.append(('ok', r[0].type, bytes(r[1].bytes)))
+        except Exception as e:  # noqa
+            out.append(('exc', type(e).__name__))
+            break
+    return out
+
+
+def rng_iv(c):
+    """deterministic explicit IV of a record (any value is legal)"""
+    import hashlib as _hl
+    return _hl.sha256(bytes(c['seq']) + bytes(c['ckey'])).digest()[:c['bs']]
+
+
+def record_sequence_expect(sc):
+    """None in a position = the property does not decide it (well-formed body under a foreign header version)."""
+    out = []
+    for c in sc['recs']:
+        spec_case = dict(c)                                   # negotiated version, the record's own sequence number
+        if py_spec(spec_case):
+            d = bytes(c['data'])
+            out.append(('ok', c['ty'], d[:len(d) - d[-1] - 1 - c['ds']]) if tuple(c['hdr']) == tuple(sc['ver']) else None)
+        else:
+            out.append(('exc', 'TLSBadRecordMAC'))
+            break
+    return out
+
+
+def sequence_agrees(got, want):
+    for g, w in zip(got, want):
+        if w is None:
+            return True                                       # undecided from here on
+        if g != w:
+            return False
+    return len(got) == len(want)
+
+
 def record_level_expect(c):
     if py_spec(c):
         d = bytes(c['data'])
@@ -361,6 +485,12 @@ Definition chk_spec (c : CaseT) : bool :=
 
 def jcase(c):
     return {k: (v.hex() if isinstance(v, (bytes, bytearray)) else v) for k, v in c.items()}
+
+
+def jseq(sc):
+    d = jcase({k: v for k, v in sc.items() if k != 'recs'})
+    d['recs'] = [jcase(r) for r in sc['recs']]
+    return d
 
 
 def ct_helper_cases(ctx, n):
@@ -426,7 +556,14 @@ def run(ctx):
                                   '(mac=hmac.new(key,digestmod) or harness/toys.ToyMac)'})
     ctx.log('impl vs python spec: %d cases' % len(cases))
     # ---- the call site in the record layer (block size argument, stripping), against the same spec
-    for k in range(400 if quick else 6000):
+    import inspect
+    from tlslite.recordlayer import RecordLayer as _RL
+    direct_ok = [q for q in inspect.signature(_RL._decryptThenMAC).parameters] == ['self', 'recordType', 'data']
+    if not direct_ok:
+        # a different signature is a refactoring, not a verdict: the method is then exercised through
+        # recvRecord only (next stream) and the changed call site is reported by the site table below
+        ctx.log('RecordLayer._decryptThenMAC%s: direct stream skipped' % (inspect.signature(_RL._decryptThenMAC),))
+    for k in range((400 if quick else 6000) if direct_ok else 0):
         c = record_level_case(ctx.rng)
         got, want = run_record_level(c), record_level_expect(c)
         ctx.count('recordlayer._decryptThenMAC-vs-python-spec', 1,
@@ -438,6 +575,25 @@ def run(ctx):
                           'RecordLayer._decryptThenMAC gives %r, the specification %r' % (got, want),
                           {'case': jcase(c), 'impl': repr(got), 'spec': repr(want), 'level': 'record',
                            'how': 'harness/props/C12.py run_record_level(case) on /repo'})
+    # ---- whole receive path, consecutive records, sequence numbers next to every carry boundary
+    for k in range(300 if quick else 4000):
+        sc = record_sequence_case(ctx.rng)
+        try:
+            got = run_record_sequence(sc)
+        except Exception as e:  # noqa
+            got = [('harness-exc', type(e).__name__)]
+        want = record_sequence_expect(sc)
+        ctx.count('recordlayer.recvRecord-sequence-vs-python-spec', 1,
+                  [(tuple(sc['ver']), sc['mac'], sc['cipher'], sc['kind'], sc['start'].bit_length() // 8, len(want))],
+                  sample=jseq(sc) if k % 97 == 5 else None)
+        if not sequence_agrees(got, want):
+            found = True
+            ctx.violation('recvRecord!=spec:%s:%s:%s' % ('ssl3' if tuple(sc['ver']) == (3, 0) else 'tls', sc['kind'],
+                                                        'seq>=2^32' if sc['start'] + 2 >= 2**32 else 'seq<2^32'),
+                          'RecordLayer.recvRecord over three consecutive records starting at sequence number %d gives %r, '
+                          'the specification %r' % (sc['start'], got, want),
+                          {'case': jseq(sc), 'impl': repr(got), 'spec': repr(want), 'level': 'record-sequence',
+                           'how': 'harness/props/C12.py run_record_sequence(case) on /repo'})
     # ---- call sites of the check, extracted from the source: arguments as modelled
     sites = call_sites()
     ctx.cov['call_sites'] = sites
